@@ -55,6 +55,10 @@ ASSUMPTIONS = [
 GRIDS = {
     'g0': [['c', 7, False]],
     'g2': [['p', [10, 20], True], ['c', 7, False]],
+    # every unpacked parameter has a single value: one combination, which must
+    # still reach the iteration unpacked
+    'g1': [['p', [10], True], ['c', 7, False]],
+    'g1x1': [['b', [3], True], ['c', 7, False], ['a', [10], True]],
     'g1x2': [['b', [1, 2], True], ['c', 7, False], ['a', [10], True]],
     'g2x2': [['b', [1, 2], True], ['c', [5, 6], False], ['a', [10, 20], True]],
     'g3': [['p', [10, 20, 30], True], ['c', 7, False]],
@@ -281,7 +285,12 @@ def make_runner(grid, dec, log, rep_max, state=None, cfg=None):
 
     def identify(params):
         t = tuple(params[n] for n in state['names'])
-        if t in state['combos']:
+        if any(isinstance(x, (np.ndarray, list, tuple)) for x in t):
+            # the iteration was handed a still-packed value (e.g. array([5.])
+            # instead of 5.0): not a combination of the unpacked parameters,
+            # even where a one-element array compares equal to its element
+            t = ('still-packed', ) + tuple(repr(x) for x in t)
+        elif t in state['combos']:
             return state['combos'].index(t)
         if t not in log.unknown:
             log.unknown.append(t)
@@ -716,7 +725,7 @@ class Simulate(Harness):
         if not q:
             # (largest unit first: better load balance)
             unit('g2', 'all', [0, 1], [1, 5], 2)
-        grids = ['g0', 'g2', 'g1x2', 'g2x2'] if q else [
+        grids = ['g0', 'g1', 'g1x1', 'g2', 'g1x2', 'g2x2'] if q else [
             g for g in GRIDS if g not in KIND_GRIDS]
         for g in grids:
             n = nvar(g)
@@ -1451,7 +1460,9 @@ MANIFEST = dict(
     'loaded state with symbolic current_rep <= 1e6.  get_pack_indexes / '
     'get_result_values_list: symbolic distinct parameter values and symbolic '
     'fixed values, exact index set proved per path.',
-    note='<=2 skips per variation; symbolic skip/stop behaviour on <=2 '
+    note='<=2 skips per variation; grids include one-combination grids '
+    'whose unpacked parameters are all single-valued (the iteration must '
+    'receive unpacked scalars, never a still-packed list/array); symbolic skip/stop behaviour on <=2 '
     'variations per unit; SUMTYPE integer results only; no files (partial '
     'result loader/saver stubbed where the code path needs them); parallel '
     'runner and progress bars outside; unpacked values pairwise distinct '
